@@ -137,7 +137,16 @@ func (err *yamlParseError) Error() string {
 			}
 		}
 	}
-	linestr, line, column := getLineByOffset(err.contents, index+1)
+	// the index counts characters, getLineByOffset counts bytes
+	offset := len(err.contents)
+	for i := range err.contents {
+		if index == 0 {
+			offset = i
+			break
+		}
+		index--
+	}
+	linestr, line, column := getLineByOffset(err.contents, offset+1)
 	return fmt.Sprintf("invalid yaml: %s:%d\n%s  %s",
 		err.fname, line, formatLineInfo(linestr, line, column), message)
 }
